@@ -44,11 +44,11 @@ Lemma no_char_not_head c s : no_char c s = true -> not_head c s = true.
 Proof. destruct s as [|a s]; [reflexivity|]. cbn. intros H. apply andb_prop in H as [H _]. exact H. Qed.
 
 (* ---- values are single literal tokens ---- *)
-Lemma value_tok_ins_ok v : lit_val v = true -> lit_ok (value_tok_ins v) = true.
+Lemma value_tok_ins_ok c v : lit_val v = true -> lit_ok (value_tok_ins c v) = true.
 Proof.
   destruct v as [s|z|b| |x|t]; cbn [lit_val value_tok_ins lit_ok]; intros H; try reflexivity; try discriminate.
   - destruct (numeric_bare _ (numeric_Z z)) as [H1 H2]. rewrite Z_to_string_nonempty, H1, H2. reflexivity.
-  - destruct b; reflexivity.
+  - destruct (cls_sqlite_bool c), b; reflexivity.
   - unfold float_ok in H. apply andb_prop in H as [H Hk]. apply andb_prop in H as [H Hz]. apply andb_prop in H as [H Hq].
     apply andb_prop in H as [Hn Hd]. rewrite Hn, Hd, (no_char_not_head _ _ Hq). reflexivity.
 Qed.
@@ -60,9 +60,9 @@ Proof.
   - unfold float_ok in H. apply andb_prop in H as [H Hk]. apply andb_prop in H as [H Hz]. apply andb_prop in H as [H Hq].
     apply andb_prop in H as [Hn Hd]. rewrite Hn, Hd, (no_char_not_head _ _ Hq). reflexivity.
 Qed.
-Lemma wrap_constant_lit v : lit_val v = true ->
-  is_litterm (snd (wrap_constant v)) = true /\ lit_of (snd (wrap_constant v)) = value_tok_ins v.
-Proof. destruct v as [s|z|b| |x|t]; intros H; try discriminate; split; reflexivity. Qed.
+Lemma wrap_constant_lit c v : lit_val v = true ->
+  is_litterm (snd (wrap_constant c v)) = true /\ lit_of (snd (wrap_constant c v)) = value_tok_ins c v.
+Proof. unfold wrap_constant. destruct v as [s|z|b| |x|t]; intros H; try discriminate; split; reflexivity. Qed.
 Lemma wrap_set_lit c v : lit_val v = true ->
   is_litterm (snd (wrap_set c v)) = true /\ lit_of (snd (wrap_set c v)) = value_tok_set c v.
 Proof. destruct v as [s|z|b| |x|t]; intros H; try discriminate; split; reflexivity. Qed.
@@ -74,11 +74,11 @@ Proof.
   rewrite (numeric_not _ "NULL" eq_refl N), (numeric_not _ "null" eq_refl N), (numeric_not _ "true" eq_refl N),
           (numeric_not _ "false" eq_refl N). cbn [orb]. rewrite Z_round_trip. reflexivity.
 Qed.
-Theorem inserted_value_denotes v : lit_val v = true -> lit_value (value_tok_ins v) = pyval_value v.
+Theorem inserted_value_denotes c v : lit_val v = true -> lit_value (value_tok_ins c v) = pyval_value v.
 Proof.
   destruct v as [s|z|b| |x|t]; intros H; try discriminate; try reflexivity.
   - apply lit_value_int.
-  - destruct b; reflexivity.
+  - cbn [value_tok_ins]. destruct (cls_sqlite_bool c), b; reflexivity.
   - cbn [lit_val] in H. unfold float_ok in H. apply andb_prop in H as [H Hk]. apply andb_prop in H as [H Hz].
     cbn [value_tok_ins lit_value pyval_value].
     destruct (String.eqb x "NULL" || String.eqb x "null" || String.eqb x "true" || String.eqb x "false") eqn:E; [discriminate|].
@@ -148,23 +148,23 @@ Proof.
 Qed.
 
 Definition lit_row (r : list pyval) : bool := match r with [] => false | _ => forallb lit_val r end.
-Lemma lit_rows_cells : forall rows, forallb lit_row rows = true ->
-  forallb (forallb (fun x : wk * term => is_litterm (snd x))) (map (map wrap_constant) rows) = true
-  /\ map cell_row_text (map (map wrap_constant) rows) = map (map value_tok_ins) rows
-  /\ forallb row_ok (map (map value_tok_ins) rows) = true.
+Lemma lit_rows_cells c : forall rows, forallb lit_row rows = true ->
+  forallb (forallb (fun x : wk * term => is_litterm (snd x))) (map (map (wrap_constant c)) rows) = true
+  /\ map cell_row_text (map (map (wrap_constant c)) rows) = map (map (value_tok_ins c)) rows
+  /\ forallb row_ok (map (map (value_tok_ins c)) rows) = true.
 Proof.
   induction rows as [|r rs IH]; intros H; [repeat split; reflexivity|].
   cbn [forallb] in H. apply andb_prop in H as [Hr Hrs]. destruct (IH Hrs) as (I1 & I2 & I3).
-  assert (R : forallb (fun x : wk * term => is_litterm (snd x)) (map wrap_constant r) = true
-              /\ cell_row_text (map wrap_constant r) = map value_tok_ins r
-              /\ forallb lit_ok (map value_tok_ins r) = true).
+  assert (R : forallb (fun x : wk * term => is_litterm (snd x)) (map (wrap_constant c) r) = true
+              /\ cell_row_text (map (wrap_constant c) r) = map (value_tok_ins c) r
+              /\ forallb lit_ok (map (value_tok_ins c) r) = true).
   { assert (Hl : forallb lit_val r = true) by (destruct r; [discriminate|exact Hr]). clear Hr.
     induction r as [|v r IHr]; [repeat split; reflexivity|]. cbn [forallb] in Hl. apply andb_prop in Hl as [Hv Hl].
-    destruct (IHr Hl) as (J1 & J2 & J3). destruct (wrap_constant_lit v Hv) as [W1 W2].
-    unfold cell_row_text in *. cbn [map forallb]. rewrite W1, W2, J1, J2, J3, (value_tok_ins_ok v Hv). repeat split; reflexivity. }
+    destruct (IHr Hl) as (J1 & J2 & J3). destruct (wrap_constant_lit c v Hv) as [W1 W2].
+    unfold cell_row_text in *. cbn [map forallb]. rewrite W1, W2, J1, J2, J3, (value_tok_ins_ok c v Hv). repeat split; reflexivity. }
   destruct R as (R1 & R2 & R3).
   cbn [map forallb]. rewrite R1, R2, I1, I2, I3. repeat split; try reflexivity.
-  assert (Ro : row_ok (map value_tok_ins r) = true) by (destruct r; [discriminate|exact R3]). rewrite Ro. reflexivity.
+  assert (Ro : row_ok (map (value_tok_ins c) r) = true) by (destruct r; [discriminate|exact R3]). rewrite Ro. reflexivity.
 Qed.
 
 (* ------------------------------------------------------------------------------------------------ *)
@@ -176,27 +176,27 @@ Theorem insert_reads_back c tbl cs :
   forallb str_col (cols_of_calls cs) = true ->
   rows_of_calls cs <> [] -> forallb lit_row (rows_of_calls cs) = true ->
   exists st txt, run c (SInto tbl) cs = Ok st /\ dml_text st = Ok txt
-    /\ txt = insert_text (mode_of_calls cs) (tname tbl) (map col_str (cols_of_calls cs)) (map (map value_tok_ins) (rows_of_calls cs))
+    /\ txt = insert_text (mode_of_calls cs) (tname tbl) (map col_str (cols_of_calls cs)) (map (map (value_tok_ins c)) (rows_of_calls cs))
     /\ parse_dml txt = Some (AInsert (mode_of_calls cs) (tname tbl) (map col_str (cols_of_calls cs))
-                                     (map (map value_tok_ins) (rows_of_calls cs))).
+                                     (map (map (value_tok_ins c)) (rows_of_calls cs))).
 Proof.
   intros Hc Ht Hcs Hcols Hne Hrows.
   destruct (run_positional_into cs (init c (SInto tbl)) tbl eq_refl
               (forallb_impl _ _ cs (insert_ok_call_ok c) Hcs)) as (st & Hrun & P).
   destruct P as (Pv & Pc & Pu & Pf & Pw & Pl & Pfr & Ps & Pcl & Pi & Pup & Pd).
   cbn [init d_values d_columns d_updates d_replace d_ior d_where d_limit d_from d_selects d_cls d_into d_update d_delete app] in *.
-  destruct (str_cols_terms tbl _ Hcols) as [Ec Hnames]. destruct (lit_rows_cells _ Hrows) as (L1 & L2 & L3).
+  destruct (str_cols_terms tbl _ Hcols) as [Ec Hnames]. destruct (lit_rows_cells c _ Hrows) as (L1 & L2 & L3).
   assert (Hq : str_query (QIns c tbl (d_columns st) (map (map (fun x => IT (snd x))) (d_values st)) (sel_query st) (d_replace st) None)
                = Ok (insert_text (if d_replace st then MReplace else MInsert) (tname tbl) (map col_str (cols_of_calls cs))
-                                 (map (map value_tok_ins) (rows_of_calls cs)))).
+                                 (map (map (value_tok_ins c)) (rows_of_calls cs)))).
   { rewrite Pc, Ec, Pv. rewrite (str_query_insert_values c Hc tbl _ _ (sel_query st) (d_replace st) Ht); auto.
     - rewrite L2. reflexivity.
     - destruct (rows_of_calls cs); [congruence|discriminate]. }
   exists st. eexists. split; [exact Hrun|].
   assert (Ht' : name_ok (tname tbl) = true) by (unfold plain_table in Ht; apply andb_prop in Ht as [Ht _]; apply andb_prop in Ht as [Ht _]; exact Ht).
-  assert (Hne' : map (map value_tok_ins) (rows_of_calls cs) <> []) by (destruct (rows_of_calls cs); [congruence|discriminate]).
+  assert (Hne' : map (map (value_tok_ins c)) (rows_of_calls cs) <> []) by (destruct (rows_of_calls cs); [congruence|discriminate]).
   assert (Etxt : dml_text st = Ok (insert_text (mode_of_calls cs) (tname tbl) (map col_str (cols_of_calls cs))
-                                               (map (map value_tok_ins) (rows_of_calls cs)))).
+                                               (map (map (value_tok_ins c)) (rows_of_calls cs)))).
   { unfold dml_text, state_query, state_kind. rewrite Pup, Pd, Pi, Pcl. cbn iota. rewrite Hq.
     unfold mode_of_calls, flags_of_calls. rewrite <- Pf. unfold mode_of_flags. cbn [fst snd].
     destruct (d_replace st); [|reflexivity]. destruct (d_ior st); reflexivity. }
@@ -393,7 +393,7 @@ Theorem insert_structure_any c tbl cs texts :
   forallb (insert_call_ok c) cs = true ->
   forallb str_col (cols_of_calls cs) = true ->
   rows_of_calls cs <> [] ->
-  mapM (fun row : list pyval => mapM (fun v => ins_value_res c (snd (wrap_constant v))) row) (rows_of_calls cs) = Ok texts ->
+  mapM (fun row : list pyval => mapM (fun v => ins_value_res c (snd (wrap_constant c v))) row) (rows_of_calls cs) = Ok texts ->
   exists st, run c (SInto tbl) cs = Ok st
     /\ dml_text st = Ok (insert_text_x (mode_of_calls cs) (tname tbl) (map col_str (cols_of_calls cs)) texts).
 Proof.
